@@ -27,7 +27,7 @@ Elem = Tuple[str, Optional[str]]  # (origin, via): origin "P:<param>" or "S" (mo
 Taint = FrozenSet[Elem]
 EMPTY: Taint = frozenset()
 
-BLOCK_METHODS = {"detach", "detach_", "item", "tolist", "numpy"}
+BLOCK_METHODS = {"detach", "detach_", "item", "tolist", "numpy", "_make_subclass"}  # (_make_subclass: new autograd leaf on shared storage)
 NONVALUE_ATTRS = {"shape", "ndim", "dtype", "device", "requires_grad", "is_cuda", "is_leaf", "layout", "names", "grad_fn", "__class__",
                   "__name__", "training", "is_sparse", "indices"}
 NONVALUE_METHODS = {"size", "dim", "numel", "nelement", "is_floating_point", "is_contiguous", "is_complex", "element_size", "stride",
@@ -266,6 +266,7 @@ class _FunctionWalk:
         self._free: Dict[str, List[str]] = {}
         self._inline_cache: Dict[Tuple, Taint] = {}
         self.depth = 0
+        self.cur_stmt: Optional[ast.stmt] = None
         self.vararg = a.vararg.arg if a.vararg else None
         self.kwarg = a.kwarg.arg if a.kwarg else None
 
@@ -302,6 +303,7 @@ class _FunctionWalk:
         return True
 
     def stmt(self, st: ast.stmt, env: Dict[str, Taint]) -> bool:
+        self.cur_stmt = st
         if isinstance(st, ast.Return):
             if st.value is not None:
                 self.returns = join(self.returns, self.guard(self.expr(st.value, env)))
@@ -408,7 +410,10 @@ class _FunctionWalk:
         if isinstance(st, (ast.FunctionDef, ast.AsyncFunctionDef)):
             self.nested[st.name] = st
             return True
-        return True  # pass, del, assert, global, import, class, break, continue
+        if isinstance(st, ast.Assert):
+            # an assertion that is false for the concrete class under analysis marks an infeasible path
+            return self.const_test(st.test) is not False
+        return True  # pass, del, global, import, class, break, continue
 
     def bind(self, t: ast.AST, v: Taint, env: Dict[str, Taint]) -> None:
         if isinstance(t, ast.Name):
@@ -510,6 +515,14 @@ class _FunctionWalk:
                 return True  # differentiable inputs are floating point tensors (integer-data clean-up branches are not analysed)
         if isinstance(test, ast.Name) and test.id in self.flags:
             return bool(self.flags[test.id])
+        if isinstance(test, ast.Attribute) and isinstance(test.value, ast.Name) and test.value.id == self.selfname and self.K is not None:
+            return self.const_property(test.attr, 0)
+        if isinstance(test, ast.Call) and isinstance(test.func, ast.Name) and test.func.id == "isinstance" and len(test.args) == 2 \
+                and isinstance(test.args[0], ast.Name) and test.args[0].id == self.selfname and self.K is not None:
+            r = self.prog.resolve_expr(self.fi.module, test.args[1]) if isinstance(test.args[1], (ast.Name, ast.Attribute)) else None
+            if isinstance(r, ClassInfo):
+                return r in self.prog.mro(self.K)
+            return None
         if isinstance(test, ast.UnaryOp) and isinstance(test.op, ast.Not):
             v = self.const_test(test.operand)
             return None if v is None else not v
@@ -550,6 +563,32 @@ class _FunctionWalk:
                     return v >= r
             except TypeError:
                 return None
+        return None
+
+    def const_property(self, name: str, depth: int) -> Optional[bool]:
+        """Value of a boolean property of the concrete class under analysis when its body is a class-membership test
+        (``return isinstance(self, X)``), the negation of such a property, or a constant."""
+        if depth > 3 or self.K is None:
+            return None
+        m = self.prog.find_method(self.K, name)
+        if m is None or not m.is_property:
+            return None
+        body = [st for st in m.node.body if not (isinstance(st, ast.Expr) and isinstance(st.value, ast.Constant))]
+        if len(body) != 1 or not isinstance(body[0], ast.Return) or body[0].value is None:
+            return None
+        v = body[0].value
+        sn = m.node.args.args[0].arg if m.node.args.args else "self"
+        if isinstance(v, ast.Constant) and isinstance(v.value, bool):
+            return v.value
+        if isinstance(v, ast.UnaryOp) and isinstance(v.op, ast.Not) and isinstance(v.operand, ast.Attribute) \
+                and isinstance(v.operand.value, ast.Name) and v.operand.value.id == sn:
+            r = self.const_property(v.operand.attr, depth + 1)
+            return None if r is None else not r
+        if isinstance(v, ast.Call) and isinstance(v.func, ast.Name) and v.func.id == "isinstance" and len(v.args) == 2 \
+                and isinstance(v.args[0], ast.Name) and v.args[0].id == sn and isinstance(v.args[1], (ast.Name, ast.Attribute)):
+            r = self.prog.resolve_expr(m.module, v.args[1])
+            if isinstance(r, ClassInfo):
+                return r in self.prog.mro(self.K)
         return None
 
     # ------------------------------------------------------------------ expressions
@@ -716,7 +755,12 @@ class _FunctionWalk:
             outs = []
             for callee in callees:
                 if isinstance(callee, ClassInfo):
-                    outs.append(allargs)
+                    nw = self.prog.find_method(callee, "__new__")
+                    if nw is not None and nw.module.name.startswith("deepali") and self.ti.is_tensor_class(callee):
+                        # tensor subclasses are created in __new__ (DataTensor: Tensor._make_subclass)
+                        outs.append(self.apply(nw, [EMPTY] + args, kwargs, c.args, c.keywords, c, bound=True, K=callee))
+                    else:
+                        outs.append(allargs)
                     continue
                 bound = callee.cls is not None and not callee.is_static
                 recv: Taint = EMPTY
@@ -746,6 +790,8 @@ class _FunctionWalk:
         if isinstance(f, ast.Attribute):
             name = f.attr
             root = d.split(".")[0] if d else None
+            if name == "_make_subclass":
+                return block(allargs, self.site("Tensor._make_subclass()")) if allargs else EMPTY
             is_lib = root in ("torch", "F", "np", "math", "nn", "init", "warnings", "re", "os", "sitk", "_sitk", "nib", "itertools",
                               "functools", "operator", "copy") and root not in env
             if not is_lib:
@@ -906,6 +952,19 @@ class _FunctionWalk:
                 src = binding.get(selfname, EMPTY) if selfname else EMPTY
             else:
                 src = binding.get(o[2:], EMPTY)
+            if v is not None and " <- " not in v and isinstance(c, ast.Call):
+                # name the call (normalised text) through which the blocked value first entered a caller
+                st = self.cur_stmt
+                txt = " ".join(ast.unparse(st).split())[:110] if st is not None and not isinstance(st, (ast.If, ast.For, ast.While, ast.With, ast.Try)) \
+                    else f"{ast.unparse(c.func)}(...)"
+                # occurrences of the same statement text in one function are told apart by their order
+                if st is not None:
+                    same = [n for n in ast.walk(self.fi.node) if isinstance(n, ast.stmt) and type(n) is type(st)
+                            and " ".join(ast.unparse(n).split())[:110] == txt]
+                    same.sort(key=lambda n: (n.lineno, n.col_offset))
+                    if len(same) > 1 and st in same:
+                        txt += f" #{same.index(st) + 1}"
+                v = f"{v} <- {self.fi.qualname}: {txt}"
             out |= (block(src, v) if v is not None else src)
         # writes to the receiver's state made by the callee on our own object
         if bound and same_self:
